@@ -1,20 +1,20 @@
-\* object-graph (quick + thorough): 2 commits x 16 root-tree assignments over 4 pool trees x <= 1 tag x include-tag x thin-pack; negotiation collapsed, fixed pop order
+\* thorough: every DAG on 4 commits (diamonds, criss-cross), one sender branch, one want, all ack modes
 \* (harness/props/c05.py writes the same configuration at run time; TransferCases uses the same constants
 \*  plus SampleMod / SampleSeed)
 SPECIFICATION Spec
 CONSTANTS
-  NC = 2
-  NTP = 4
-  NT = 1
-  MaxHeads = 2
-  MaxWants = 2
-  Modes = {"detailed"}
-  IncTag = {FALSE, TRUE}
-  Thin = {TRUE}
+  NC = 4
+  NTP = 1
+  NT = 0
+  MaxHeads = 1
+  MaxWants = 1
+  Modes = {"single", "multi", "detailed"}
+  IncTag = {FALSE}
+  Thin = {FALSE}
   SFull = {FALSE}
   Forge = FALSE
   MaxInVain = 2
-  AtomicNeg = TRUE
+  AtomicNeg = FALSE
   PopAny = FALSE
   Bug = "none"
 INVARIANT TypeOK
